@@ -279,6 +279,10 @@ func ruleZ2(c *Ctx, id string) {
 						return true
 					}
 					// result of the recursive shrink on the pointer read from the same slot
+					if ex, isE := a.(*ssa.Extract); isE {
+						// the block is one of several results of the recursive shrink
+						a = ex.Tuple
+					}
 					if rc, ok := a.(*ssa.Call); ok && rc.Call.StaticCallee() == indshrink {
 						return getSame(stripConv(argN(rc, 1)))
 					}
